@@ -27,7 +27,7 @@ LEVEL_TEXT = ("Lean theorems over Model/Ack.lean (ReliableSender send/ack/maybe_
 LEVEL_NOTE = ("modelled, not verified: comms.py ReliableSender/Listener/callback, the Ack dispatch and maybe_retry call of Bridge.recv_events, "
               "Bridge.shutdown, Executor.recv_loop; zmq sockets, the poller and the clock are fakes; pickle is trusted. Known: the shutdown "
               "handshake (Bridge.shutdown loop, ExecutorExit of a leaving executor) is outside the acknowledged regime (c06_shutdown_full_fails).")
-TECHNIQUE = ("Lean 4 proof: 17-conjunct invariant + induction over the step list (unrestricted adversary), potential argument for the retry "
+TECHNIQUE = ("Lean 4 proof: 16-conjunct invariant + induction over the step list (unrestricted adversary), potential argument for the retry "
              "budget; AST translator for the endpoint loops; differential correspondence with the real classes over a fake network")
 LEAN_PROPS = ["EkwVerif.Props.C06"]
 LEAN_DRIVERS = ["C06"]
@@ -255,9 +255,13 @@ class RealRun:
             for op in case["ops"]:
                 try:
                     w0 = len(sim.net.emitted)
+                    pos = len(self.trace)
                     out.append(self.op(op))
-                    for ad, fr in sim.net.emitted[w0:]:      # frames on the wire (zmq socket seam)
+                    tail = self.trace[pos:]
+                    del self.trace[pos:]
+                    for ad, fr in sim.net.emitted[w0:]:      # frames on the wire (zmq socket seam), before the op's outcome
                         self._tx(fr)
+                    self.trace.extend(tail)
                 except Exception as ex:  # noqa: BLE001 - unexpected exception of the real code = a result
                     out.append(({"op": "noop"}, {"crash": f"{type(ex).__name__}: {ex}"}))
                     self.trace.append(("crash", op.get("ep", 0), f"{type(ex).__name__}: {ex}"))
@@ -934,8 +938,10 @@ def oracle_only(ctx):
 
 def search(ctx, why):
     """(P) or (T) broken: larger targeted search on the real code (oracle only)."""
-    if ctx.violations:
-        return
+    from ekw.core import load_known, match_known
+    known = load_known()
+    if any(match_known(PROPERTY, v["signature"], known) is None for v in ctx.violations):
+        return      # an unexplained failing input is already at hand
     for _ in range(ctx.budget(1500, 20000)):
         case = gen_case(ctx.rng, tier_big=True)
         rr, out = run_real(case)
@@ -956,6 +962,17 @@ def search(ctx, why):
 
 
 def replay(payload):
+    if "case" not in payload:
+        # proof or correspondence broken without a failing input: show what broke, re-run the first diverging history
+        print("proof broken:", json.dumps(payload.get("proof_broken"))[:2000])
+        for d in payload.get("correspondence_broken", [])[:3]:
+            print("correspondence broken at", d.get("where"), "\n  model:", json.dumps(d.get("model"))[:800], "\n  real: ", json.dumps(d.get("impl"))[:800])
+            c = d.get("case", {})
+            if c.get("type") == "history":
+                rr, out = run_real(c)
+                for (line, real), o in zip(out[1:], c["ops"]):
+                    print("   ", o, "->", real)
+        return 1
     case = payload["case"]
     if case.get("type") == "frames":
         o = real_rawrecv(case)
